@@ -503,6 +503,254 @@ def offset_prefixes(ctx, rng):
             "DocumentRef-d:LicenseRef-a AND ", p3 + "-only AND ", A.lower() + " AND ", B + " OR " + A + " WITH "]
 
 
+# --------------------------------------------------------------------------- C12
+def run_generator(ctx):
+    """run the real generator in a scratch copy (outside /repo and /verif); returns {file: bytes}"""
+    g = os.path.join(ctx.scratch, "gen")
+    os.makedirs(os.path.join(g, "spdxexp", "spdxlicenses"))
+    shutil.copytree(os.path.join(REPO, "cmd"), os.path.join(g, "cmd"))
+    for f in ("go.mod", "go.sum"):
+        shutil.copy(os.path.join(REPO, f), g)
+    p = subprocess.run(["go", "run", ".", "extract", "-l", "-e"], cwd=os.path.join(g, "cmd"), env=GOENV, capture_output=True, text=True, timeout=600)
+    if p.returncode != 0:
+        raise Infra("generator run failed: " + p.stdout[-1500:] + p.stderr[-1500:])
+    out = {}
+    for f in ("get_licenses.go", "get_deprecated.go", "get_exceptions.go"):
+        path = os.path.join(g, "spdxexp", "spdxlicenses", f)
+        out[f] = open(path, "rb").read() if os.path.exists(path) else None
+    shutil.rmtree(g, True)
+    return out
+
+
+def c12(ctx):
+    sl = os.path.join(REPO, "spdxexp", "spdxlicenses")
+    files = {}
+    for key, f in (("licenses", "get_licenses.go"), ("deprecated", "get_deprecated.go"), ("exceptions", "get_exceptions.go")):
+        with open(os.path.join(sl, f), encoding="utf-8", errors="replace") as fh:
+            files[key] = fh.read().split("\n")
+    with open(os.path.join(ctx.spec, "genfiles.json"), "w") as fh:
+        json.dump(files, fh)
+    for f in ("licenses.json", "exceptions.json"):
+        shutil.copy(os.path.join(REPO, "cmd", f), ctx.spec)
+    p = pick_plain(ctx)
+    with open(os.path.join(ctx.spec, "MC_Gen.tla")) as fh:
+        src = fh.read()
+    with open(os.path.join(ctx.spec, "MC_Gen.tla"), "w") as fh:
+        fh.write(src.replace('P == "MIT"', 'P == %s' % Q(p)))
+    r = ctx.run_tlc("gen", "MC_Gen", "MC_Gen", workers=4, timeout=1800, extra=["-continue"])
+    import re as _re
+    viol = sorted(set(_re.findall(r"Invariant (\w+) is violated", r["log"])))
+    nids = len(ctx.tables["active"]) + len(ctx.tables["deprecated"]) + len(ctx.tables["exceptions"])
+    if r["distinct"] != nids + 1:
+        raise Infra("gen: %d ids, TLC found %d states" % (nids, r["distinct"]))
+    # the real generator must reproduce the committed files byte for byte
+    produced = run_generator(ctx)
+    for f, b in produced.items():
+        committed = open(os.path.join(sl, f), "rb").read()
+        ctx.replayed += 1
+        if b != committed:
+            ctx.mismatches.append({"what": "generator-output-differs", "fn": "cmd (go run . extract -l -e)", "expr": f, "list": [f],
+                                   "expected": "byte-identical to the committed spdxexp/spdxlicenses/" + f,
+                                   "observed": {"produced_bytes": None if b is None else len(b), "committed_bytes": len(committed)},
+                                   "source": "generator run"})
+    ctx.stages.append({"stage": "generator", "kind": "real generator run in a scratch copy, bytes compared", "files": sorted(produced)})
+    rel = {"table-ActiveFromJson", "table-DeprecatedFromJson", "table-ExceptionsFromJson", "table-FilesFromGen", "table-Disjoint",
+           "table-FoldUnique", "generator-output-differs", "validity", "validity-disagreement", "invalid-allowed-entry-accepted",
+           "allowed-entry", "verdict"}
+    if viol and not [m for m in ctx.mismatches if m["what"] in rel]:
+        raise Infra("model-level invariant %s failed but nothing was reproduced on real data" % viol)
+    return finish(ctx, relevant=rel,
+                  rule="one TLC state per listed id (the lists read through the real package) + six whole-list clauses against cmd/*.json "
+                       "read by TLC and Gen.tla's rendering of the three files; the real generator is run and its bytes compared; every id is "
+                       "validated through all entry points (license ids valid alone; exception ids valid after WITH only); non-trivial = valid",
+                  extra_cov={"listed_ids": nids})
+
+
+# --------------------------------------------------------------------------- C13
+def conc_workloads(ctx, rng, thorough):
+    roles = Roles(ctx, rng)
+    texts, universe, _ = roles.tree_roles()
+    p1, p2 = rng.sample(roles.unranged, 2)
+    allowed = [universe[0], universe[1], p1]
+    licenses = [texts[0], "FOO-bar", texts[1] + " AND"]
+    e1 = texts[0] + " OR (" + texts[1] + " AND " + p1 + ")"
+    e2 = p1 + " AND " + texts[2]
+    mem = {"allowed": allowed, "licenses": licenses, "mixed": [p1, p1 + " AND " + p2], "two": [texts[0], "("]}
+    W = [
+        [("Satisfies", e1, "allowed"), ("ValidateLicenses", "", "licenses")],
+        [("Satisfies", e1, "allowed"), ("Satisfies", e2, "allowed")],
+        [("ExtractLicenses", e1, ""), ("Satisfies", e2, "allowed")],
+    ]
+    if thorough:
+        W.append([("ExtractLicenses", e1, ""), ("ValidateLicenses", "", "two"), ("Satisfies", e2, "mixed")])
+        W.append([("Satisfies", e1 + " OR", "allowed"), ("ExtractLicenses", e2, ""), ("ValidateLicenses", "", "licenses")])
+    return mem, W
+
+
+def c13(ctx):
+    rng = random.Random(ctx.seed)
+    thorough = ctx.tier == "thorough"
+    mem, W = conc_workloads(ctx, rng, thorough)
+    memtla = "[" + ", ".join("%s |-> %s" % (k, tla_seq(v)) for k, v in mem.items()) + "]"
+    for i, w in enumerate(W):
+        calls = "<<" + ", ".join('[fn |-> %s, e |-> %s, arg |-> %s]' % (Q(f), Q(e), Q(a)) for f, e, a in w) + ">>"
+        ctx.write_params("SpdxConc_P", {"Mem": memtla, "Calls": calls})
+        cpath = os.path.join(ctx.scratch, "calls%d.json" % i)
+        with open(cpath, "w") as fh:
+            json.dump({"mem": mem, "calls": [{"fn": f, "e": e, "arg": a} for f, e, a in w]}, fh)
+        r = ctx.run_tlc("conc%d" % i, "SpdxConc", "SpdxConc", timeout=3000, replay_args=["-calls", cpath])
+        if r["violated"]:
+            raise Infra("model-level invariant %s failed in SpdxConc with Dev = {} (specification problem)" % r["violated"])
+        if r["summary"]["byKind"].get("sched", 0) == 0:
+            raise Infra("no schedule was emitted")
+        ctx.notes.append("conc%d: %s; %d schedules replayed through the gating hooks" % (i, w, r["summary"]["byKind"].get("sched", 0)))
+    # histories: repeats, shuffled and reversed order; first-occurrence events are trace-validated
+    tpath = os.path.join(ctx.spec, "trace.ndjson")
+    hp = subprocess.run([ctx.harness, "conc", "hist", "-seed", str(ctx.seed), "-n", str(3000 if thorough else 600), "-trace", tpath],
+                        capture_output=True, text=True, timeout=1200)
+    if hp.returncode != 0:
+        raise Infra("conc hist failed: " + hp.stderr[-2000:])
+    hs = json.loads(hp.stdout)
+    ctx.replayed += hs["calls"]
+    ctx.nontrivial += hs["distinctCalls"]
+    for d in hs.get("diffs") or []:
+        ctx.mismatches.append({"what": "result-depends-on-history", "fn": d["fn"], "expr": d["expr"], "list": d.get("list"),
+                               "expected": d["first"], "observed": d["later"], "source": "history:" + d["pass"]})
+    if hs.get("mutatedCalls"):
+        ctx.mismatches.append({"what": "argument-mutated", "fn": "history", "expr": "", "list": [], "expected": "arguments untouched",
+                               "observed": hs["mutatedCalls"], "source": "history"})
+    if hs.get("outBytes"):
+        ctx.mismatches.append({"what": "wrote-to-stdout", "fn": "history", "expr": "", "list": [], "expected": "0 bytes on stdout/stderr",
+                               "observed": hs["outBytes"], "source": "history"})
+    ctx.stages.append({"stage": "histories", "kind": "call histories with repeats in given/shuffled/reversed order", **{k: hs[k] for k in ("calls", "distinctCalls", "outBytes")}})
+    ctx.validate_trace("hist-trace")
+    # free-running concurrency under the race detector
+    race = ctx.build(race=True)
+    sp = subprocess.run([race, "conc", "stress", "-seed", str(ctx.seed), "-n", str(1500 if thorough else 300),
+                         "-goroutines", str(64 if thorough else 24)], capture_output=True, text=True, timeout=2400,
+                        env=dict(os.environ, GORACE="halt_on_error=0"))
+    racy = "DATA RACE" in sp.stderr or "fatal error: concurrent map" in sp.stderr
+    ss = None
+    try:
+        ss = json.loads(sp.stdout)
+    except ValueError:
+        pass
+    if racy:
+        ctx.mismatches.append({"what": "data-race", "fn": "concurrent workload", "expr": "", "list": [], "expected": "no report from the Go race detector",
+                               "observed": sp.stderr[:3000], "source": "race-stress"})
+    elif ss is None:
+        raise Infra("race stress run failed (rc=%d): %s" % (sp.returncode, sp.stderr[-2000:]))
+    if ss:
+        ctx.replayed += ss["calls"]
+        for d in ss.get("diffs") or []:
+            ctx.mismatches.append({"what": "result-depends-on-schedule", "fn": d["call"], "expr": d["expr"], "list": d.get("list"),
+                                   "expected": d["sequential"], "observed": d["concurrent"], "source": "race-stress"})
+        if ss.get("mutated"):
+            ctx.mismatches.append({"what": "argument-mutated", "fn": "concurrent workload", "expr": "", "list": [], "expected": "arguments untouched",
+                                   "observed": "shared slices changed", "source": "race-stress"})
+        if ss.get("outBytes"):
+            ctx.mismatches.append({"what": "wrote-to-stdout", "fn": "concurrent workload", "expr": "", "list": [], "expected": "0 bytes",
+                                   "observed": ss["outBytes"], "source": "race-stress"})
+        ctx.stages.append({"stage": "race-stress", "kind": "free-running goroutines over shared slices, harness built with -race",
+                           "calls": ss["calls"], "goroutines": ss["goroutines"], "race_reported": racy})
+    ctx.assumptions.append("gated schedules interleave at stage-hook granularity only; data races are left to the Go race detector on the free-running run")
+    return finish(ctx, relevant={"argument-mutated", "mutated", "result-depends-on-schedule", "result-depends-on-history", "data-race",
+                                 "wrote-to-stdout", "hang"},
+                  rule="TLC enumerates every interleaving of the stage steps of 2-3 concurrent calls sharing argument slices; each complete "
+                       "schedule is replayed on the real code through blocking hooks, comparing the shared slices after every step and each "
+                       "result with the sequential one; call histories with repeats in three orders; a -race build runs the free workload; "
+                       "non-trivial = every schedule / distinct call")
+
+
+# --------------------------------------------------------------------------- C14
+MiB = 1 << 20
+
+
+def measure(ctx, fn, e, a, tries=1):
+    path = os.path.join(ctx.scratch, "call.json")
+    with open(path, "w") as fh:
+        json.dump({"fn": fn, "e": e, "a": a}, fh)
+    best = None
+    for _ in range(tries):
+        p = subprocess.run([ctx.harness, "measure", "-in", path], capture_output=True, text=True, timeout=120,
+                           env=dict(os.environ, GOGC="100"))
+        try:
+            r = json.loads(p.stdout.strip().splitlines()[-1])
+        except (ValueError, IndexError):
+            raise Infra("measure failed (rc=%d): %s" % (p.returncode, p.stderr[-1000:]))
+        if best is None or r["ns"] < best["ns"]:
+            best = r
+        if not r["aborted"] and r["ns"] < 1e9:
+            break
+    return best
+
+
+def c14(ctx):
+    thorough = ctx.tier == "thorough"
+    sizes = [2, 4, 8, 16, 32, 64, 128, 256] + ([512, 1024] if thorough else [])
+    ctx.write_params("MC_Cost_P", {"SmallN": "{1, 2, 3, 4, 5, 6, 7, 8}", "Sizes": "<<" + ", ".join(map(str, sizes)) + ">>",
+                                   "SizesExp": "<<2, 4, 6, 8, 10, 12, 14, 16, 18>>", "Degree": "3"})
+    r = ctx.run_tlc("cost", "MC_Cost", "MC_Cost", workers=4, timeout=1800)
+    if r["violated"]:
+        raise Infra("model-level invariant %s failed in MC_Cost (the cost laws do not describe the model's own expansion)" % r["violated"])
+    costs = r["summary"].get("costs") or []
+    fams = {}
+    for c in costs:
+        fams.setdefault(c["family"], []).append(c)
+    # families without an expansion law: long allowed lists, long identifiers (built here; no tree involved)
+    extra = {"LongAllowed": [], "LongUnknownId": [], "LongRefName": [], "LongBlankRun": []}
+    for n in sizes + ([2048, 4096] if thorough else [512]):
+        extra["LongAllowed"].append({"family": "LongAllowed", "n": n, "e": "LicenseRef-1", "a": ["LicenseRef-%d" % k for k in range(1, n + 1)]})
+        extra["LongUnknownId"].append({"family": "LongUnknownId", "n": n, "e": "x" * n})
+        extra["LongRefName"].append({"family": "LongRefName", "n": n, "e": "LicenseRef-" + "a" * n})
+        extra["LongBlankRun"].append({"family": "LongBlankRun", "n": n, "e": "LicenseRef-1" + " " * n + "AND LicenseRef-2"})
+    fams.update(extra)
+    points, nontrivial = [], 0
+    poly_note = {}
+    for fam, members in sorted(fams.items()):
+        members.sort(key=lambda c: c["n"])
+        poly_note[fam] = members[0].get("poly", True)
+        for fn in ("Satisfies", "ExtractLicenses", "ValidateLicenses"):
+            seen = {}
+            for c in members:
+                a = c.get("a") or ["LicenseRef-1"]
+                size = len(c["e"]) + sum(len(x) for x in a)
+                m = measure(ctx, fn, c["e"], a if fn == "Satisfies" else [], tries=3)
+                ctx.replayed += 1
+                pt = {"family": fam, "fn": fn, "n": c["n"], "bytes_in": size, "alloc": m["alloc"], "ms": round(m["ns"] / 1e6, 1),
+                      "aborted": m["aborted"], "law_cells": c.get("cells")}
+                points.append(pt)
+                nontrivial += 1
+                over_budget = size <= 512 and (m["aborted"] or m["alloc"] > 64 * MiB or m["ns"] > 1e9)
+                if over_budget:
+                    ctx.mismatches.append({"what": "cost-budget", "fn": fn, "family": fam, "expr": c["e"][:300], "list": a[:3],
+                                           "expected": "<= 64 MiB allocated and <= 1 s for an input of <= 512 bytes",
+                                           "observed": pt, "source": "measure"})
+                prev = seen.get(c["n"] // 2) if c["n"] % 2 == 0 else None
+                if prev and prev["alloc"] > 256 * 1024:
+                    ratio = m["alloc"] / prev["alloc"]
+                    if ratio > 16:
+                        ctx.mismatches.append({"what": "cost-growth", "fn": fn, "family": fam, "expr": c["e"][:300], "list": a[:3],
+                                               "expected": "alloc(2n)/alloc(n) <= 16 (degree <= 4)", "observed": {"ratio": ratio, "at": pt, "prev": prev},
+                                               "source": "measure"})
+                seen[c["n"]] = pt
+                if m["aborted"] or m["alloc"] > 256 * MiB:
+                    break   # larger members only cost more
+    for fam, ok in poly_note.items():
+        if not ok:
+            ctx.notes.append("model: the expansion law of family %s is not bounded by 4*terms^3 (design-level finding by TLC)" % fam)
+    ctx.samples = points[:6]
+    ctx.nontrivial = nontrivial
+    ctx.stages.append({"stage": "measure", "kind": "one watched subprocess per (family, size, function); TotalAlloc delta and wall time", "points": points})
+    ctx.exhaustive = False
+    ctx.assumptions.append("cost is observed at finitely many sizes; allocation bytes are deterministic, wall time is used only against the 1 s budget with 3 tries")
+    return finish(ctx, relevant={"cost-budget", "cost-growth"}, level="exploration",
+                  rule="input families parameterised by size n (AND/OR chains, nesting, AND of ORs, OR of ANDs, alternating nest, left-nested "
+                       "chain: texts and expansion laws from Families.tla, laws checked by TLC against the model's parser for n <= 8; long allowed "
+                       "lists, long ids, long blank runs) x 3 functions; budget rule (<= 512 input bytes: <= 64 MiB, <= 1 s) and growth rule "
+                       "(alloc(2n)/alloc(n) <= 16); every measured point counts as non-trivial")
+
+
 # --------------------------------------------------------------------------- C15
 def c15(ctx):
     rng = random.Random(ctx.seed)
@@ -615,18 +863,80 @@ def c05(ctx):
                        "non-trivial = accepted by the grammar")
 
 
-CHECKS = {"C01": c01, "C02": c02, "C03": c03, "C04": c04, "C15": c15, "C05": c05, "C06": c06, "C07": c07, "C08": c08, "C10": c10, "C09": c09, "C11": c11}
+CHECKS = {"C01": c01, "C02": c02, "C03": c03, "C04": c04, "C15": c15, "C05": c05, "C06": c06, "C07": c07, "C08": c08, "C10": c10, "C12": c12, "C13": c13, "C14": c14, "C09": c09, "C11": c11}
 
 MC = "model_checking"
+_NOTE = ("Exhaustive only inside the stated bounds (see the evidence file of each run); larger inputs are sampled by the seeded driver and "
+         "trace-validated. Inputs outside the documented vocabulary (reading decisions R1-R3, R9 in DESIGN.md) are checked relationally only. "
+         "Trusted: TLC, the Go toolchain, the harness' projection of observations.")
+
+
+def _info(ref, technique, text, level=MC, note=_NOTE):
+    return dict(level=level, ref=ref, technique=technique, text=text, note=note)
+
+
 INFO = {
-    "C05": dict(level=MC, ref="5 (C05)", technique="TLC exhaustive enumeration of token/lexeme sequences against a reference grammar + replay on real code + trace validation",
-                text="TLC enumerates every token-class sequence up to the bound and checks that the transcribed recursive descent accepts exactly "
-                     "the documented grammar and that the character-level scanner model reads each rendering back as those tokens; every sequence "
-                     "is then rendered (loose/tight, model and seed-chosen lexemes) and run through the real ValidateLicenses/ExtractLicenses/"
-                     "Satisfies, whose validity verdict must equal the model's; mutated expressions from the whole tables are trace-validated.",
-                note="Exhaustive only up to the stated token/lexeme bounds; inputs outside the documented vocabulary (R1-R3 in DESIGN.md) are "
-                     "checked relationally only. Trusted: TLC, the Go toolchain, the rendering code shared by model and harness (cross-checked "
-                     "by the RoundTrip invariant)."),
+    "C01": _info("5 (C01)", "TLC over all expression trees x allowed subsets (Boolean evaluation vs OR-of-ANDs design) + replay on real Satisfies + trace validation",
+                 "TLC enumerates every expression tree up to the leaf bound over role texts from the shipped tables and, for every non-empty "
+                 "subset of an allowed universe, checks precedence/grouping of the parser model, expansion = Boolean evaluation and operational "
+                 "= declarative matching; every (text, list) pair is replayed through the real Satisfies; larger random trees over the whole "
+                 "tables are trace-validated against SpdxTrace.tla."),
+    "C02": _info("5 (C02)", "TLC over ordered term pairs from the shipped tables (MatchOp = MatchDecl, symmetry, reflexivity) + replay as Satisfies(a,[b])",
+                 "Every ordered pair of a set of term texts generated from the shipped tables (all table/natural families x spellings x "
+                 "exceptions, cross pairs of listed ids, LicenseRefs) is a TLC state; the operational matcher model must equal C02's rule, be "
+                 "symmetric and reflexive; each pair is replayed on the real code."),
+    "C03": _info("5 (C03)", "TLC-enumerated input spaces (token sequences, lexeme texts incl. foreign bytes, trees, lists) executed on all entry points under recover(); total-cursor invariant in the parser model",
+                 "The parser model's cursor is total (no PANIC outcome reachable, checked over every token sequence); all enumerated inputs and "
+                 "seeded mutations of valid expressions are run through all three functions under recover(); any panic is a violation."),
+    "C04": _info("5 (C04)", "TLC over argument lists and single strings (error rule of Api.tla) + replay through all three entry points + trace validation",
+                 "Every list up to the bound over a pool of valid/invalid/compound strings, every lexeme text and token sequence: the model's error "
+                 "rule is checked position by position, the real functions must return exactly the invalid elements / error iff invalid / "
+                 "false-nil with every error, and must agree with one another."),
+    "C05": _info("5 (C05)", "TLC exhaustive enumeration of token and lexeme sequences against a reference grammar + replay on real code + trace validation",
+                 "TLC enumerates every token-class sequence up to the bound (transcribed recursive descent = documented grammar; character-level "
+                 "scanner model reads each rendering back as those tokens) and every lexeme sequence over C05's alphabet in loose and tight spacing "
+                 "(character-level scanner = lexeme-level reading); every text goes through the real ValidateLicenses/ExtractLicenses/Satisfies."),
+    "C06": _info("5 (C06)", "TLC over all expression trees (expansion keeps every leaf) + replay of ExtractLicenses with round trips + trace validation",
+                 "For every tree up to the bound the model's distinct terms (with their accepted spellings) are compared with the real "
+                 "ExtractLicenses output: none missing, none invented, no duplicates, every returned string re-extracts to itself and the returned "
+                 "list satisfies the expression."),
+    "C07": _info("5 (C07)", "TLC over list transformations (swap/duplicate/re-spell actions) and all sub-list pairs + replay on real Satisfies",
+                 "Every non-empty sub-list in every order, with duplicated and re-spelled entries, is a TLC state whose term set must equal the "
+                 "base list's; the real verdict must equal the base list's; monotonicity is checked over all A subset-of B on the verdict vectors "
+                 "of every tree (model invariant and directly on the observed verdicts)."),
+    "C08": _info("5 (C08)", "TLC over listed ids x spelling pairs x contexts with the shipped table (Interchangeable invariant) + paired replay on real code",
+                 "For every listed id and both spelling pairs, in every term and syntactic context, the model (with the shipped family table) must "
+                 "predict identical results and the two real calls must agree with each other and with the model."),
+    "C09": _info("5 (C09)", "TLC over listed ids x case variants (scanner token invariant, fold-uniqueness of the lists) + paired replay + trace validation",
+                 "Every listed license and exception id in lower/upper/alternating case must scan to the list's token in the model and give the "
+                 "same validity/verdict and list-cased ExtractLicenses output on the real code."),
+    "C10": _info("5 (C10)", "TLC over rewrite chains (Boolean-algebra rules as actions, RuleInv) + replay of every rendering against the ORIGINAL's verdicts",
+                 "From every small tree, chains of commute/associate/idempotence/absorption/distribution rewrites at any node: TLC proves each rule "
+                 "preserves the Boolean function; all renderings of the rewritten tree and the (E) AND/OR (F) compositions are replayed and must "
+                 "give the original's verdict for every allowed subset (and the original's term set for term-preserving chains)."),
+    "C11": _info("5 (C11)", "TLC over the shipped family table (six well-formedness clauses) and over id pairs with natural-version-order expectations + replay",
+                 "One TLC state per family evaluates the well-formedness clauses on the table exported from the real package; pairs of ids of every "
+                 "table/natural family and across families carry the answer the NATURAL version order gives and are replayed as Satisfies(a,[b])."),
+    "C12": _info("5 (C12)", "TLC over the SPDX JSON vs the lists read through the real package vs Gen.tla's file rendering; real generator run; per-id acceptance replay",
+                 "TLC reads cmd/*.json itself, compares the derived lists with those the real package returns and Gen.tla's lines with the committed "
+                 "files, checks disjointness and fold-uniqueness, and emits per-id acceptance obligations replayed on all entry points; the real "
+                 "generator is run in a scratch copy and must reproduce the committed bytes."),
+    "C13": _info("5 (C13)", "TLC over all stage interleavings of concurrent calls (SpdxConc.tla) replayed through blocking hooks; histories; -race stress",
+                 "TLC enumerates every interleaving of the stage steps of 2-3 calls sharing argument slices; each schedule is replayed "
+                 "deterministically on the real code via the verif hooks (shared slices compared after every step, results with the sequential "
+                 "ones); call histories with repeats in three orders; the free-running workload runs under the Go race detector; stdout/stderr "
+                 "are captured.",
+                 note="Gated schedules interleave at stage-hook granularity; absence of data races is decided by the Go race detector on a sampled "
+                      "free-running workload, not by the model."),
+    "C14": _info("5 (C14)", "TLA+ cost laws per input family (checked by TLC against the model's expansion) + measured allocation of the real code in watched subprocesses",
+                 "Families.tla gives texts and expansion-size laws; TLC checks the laws against the model's own parser/expansion for n <= 8 and "
+                 "classifies each family as polynomial or not; the real functions are measured (TotalAlloc, time) per family and size against a "
+                 "budget rule and a growth rule.", level="exploration",
+                 note="A performance property: the verdict is a measurement at finitely many sizes; TLA+ contributes families and the design-level law."),
+    "C15": _info("5 (C15)", "TLC over valid prefixes x lexeme sequences ending in an offender (scanner position = caller-relative offset) + replay of error texts",
+                 "The scanner model keeps positions in the caller's string; for every enumerated text whose first error is an unknown or missing id "
+                 "the offset and lexeme parsed from the real error text (ExtractLicenses, Satisfies expression and allowed entry) must equal the "
+                 "model's and point at that lexeme in the caller's string."),
 }
 
 
